@@ -102,4 +102,196 @@ theorem t4 : ∀ mp : Fin 12, ∀ d : Fin 32, 1 ≤ d.val → d.val ≤ dimMarch
       (153 * mp.val + 2) / 5 + d.val - 1 ≤ 365 ∧
       ((153 * mp.val + 2) / 5 + d.val - 1 = 365 → mp.val = 11 ∧ d.val = 29) := by decide +kernel
 
+
+/-! ### civil ↔ day number -/
+
+theorem yoe_bridge (n : Nat) :
+    ((n : Int) - (n : Int) / 1460 + (n : Int) / 36524 - (n : Int) / 146096) / 365 = ((yoeOf n : Nat) : Int) := by
+  unfold yoeOf; omega
+
+theorem yearStart_bridge (y : Nat) :
+    365 * (y : Int) + (y : Int) / 4 - (y : Int) / 100 = ((yearStart y : Nat) : Int) := by
+  unfold yearStart; omega
+
+/-- day number → civil date → day number -/
+theorem daysOfCivil_civilOfDays (z : Int) : daysOfCivil (civilOfDays z) = z := by
+  have hdoe0 : 0 ≤ (z + 719468) % 146097 := Int.emod_nonneg _ (by decide)
+  have hdoe1 : (z + 719468) % 146097 < 146097 := Int.emod_lt_of_pos _ (by decide)
+  obtain ⟨n, hn⟩ := Int.eq_ofNat_of_zero_le hdoe0
+  have hn' : n < 146097 := by omega
+  obtain ⟨a, b, c⟩ := t1 n hn'
+  have hdoy : n - yearStart (yoeOf n) < 366 := by
+    split at c <;> omega
+  have t3' := t3 ⟨n - yearStart (yoeOf n), hdoy⟩
+  simp only at t3'
+  obtain ⟨m1, m2, m3, _⟩ := t3'
+  have hz : z + 719468 = (z + 719468) / 146097 * 146097 + (n : Int) := by omega
+  simp only [civilOfDays, daysOfCivil, hn, yoe_bridge, yearStart_bridge]
+  have hys' := yearStart_bridge (yoeOf n)
+  generalize yoeOf n = y at *
+  generalize yearStart y = ys at *
+  have hdoyI : (n : Int) - (ys : Int) = ((n - ys : Nat) : Int) := by omega
+  simp only [hdoyI]
+  generalize n - ys = doy at *
+  have hmpI : (5 * (doy : Int) + 2) / 153 = (((5 * doy + 2) / 153 : Nat) : Int) := by omega
+  simp only [hmpI]
+  generalize (5 * doy + 2) / 153 = mp at *
+  have hdI : (doy : Int) - (153 * (mp : Int) + 2) / 5 + 1 = ((doy - (153 * mp + 2) / 5 + 1 : Nat) : Int) := by omega
+  simp only [hdI, Int.toNat_natCast]
+  have hdef : doy - (153 * mp + 2) / 5 + 1 = doy + 1 - (153 * mp + 2) / 5 := by omega
+  generalize hd : doy - (153 * mp + 2) / 5 + 1 = d at *
+  by_cases hmp : mp < 10
+  · have h1 : (mp : Int) < 10 := by omega
+    have h2 : ¬ ((mp : Int) + 3 ≤ 2) := by omega
+    have h4 : ((mp : Int) + 3).toNat = mp + 3 := by omega
+    have h3 : ¬ (mp + 3 ≤ 2) := by omega
+    simp only [h1, h2, h4, h3, ↓reduceIte]
+    push_cast
+    have k1 : ((y : Int) + (z + 719468) / 146097 * 400) / 400 = (z + 719468) / 146097 := by omega
+    have k2 : ((y : Int) + (z + 719468) / 146097 * 400) % 400 = y := by omega
+    simp only [k1, k2]
+    omega
+  · have h1 : ¬ (mp : Int) < 10 := by omega
+    have h2 : (mp : Int) - 9 ≤ 2 := by omega
+    have h4 : ((mp : Int) - 9).toNat = mp - 9 := by omega
+    have h3 : mp - 9 ≤ 2 := by omega
+    simp only [h1, h2, h4, h3, ↓reduceIte]
+    have h5 : ((mp - 9 : Nat) : Int) = (mp : Int) - 9 := by omega
+    simp only [h5, Int.add_sub_cancel]
+    have k1 : ((y : Int) + (z + 719468) / 146097 * 400) / 400 = (z + 719468) / 146097 := by omega
+    have k2 : ((y : Int) + (z + 719468) / 146097 * 400) % 400 = y := by omega
+    simp only [k1, k2]
+    omega
+
+theorem isLeap_iff (y : Int) : isLeap y = true ↔ (y % 4 = 0 ∧ y % 100 ≠ 0) ∨ y % 400 = 0 := by
+  simp [isLeap]
+
+/-- the civil date of every day number is a real calendar date -/
+theorem civilOfDays_valid (z : Int) : (civilOfDays z).valid = true := by
+  have hdoe0 : 0 ≤ (z + 719468) % 146097 := Int.emod_nonneg _ (by decide)
+  have hdoe1 : (z + 719468) % 146097 < 146097 := Int.emod_lt_of_pos _ (by decide)
+  obtain ⟨n, hn⟩ := Int.eq_ofNat_of_zero_le hdoe0
+  have hn' : n < 146097 := by omega
+  obtain ⟨a, b, c⟩ := t1 n hn'
+  have hdoy : n - yearStart (yoeOf n) < 366 := by
+    split at c <;> omega
+  have t3' := t3 ⟨n - yearStart (yoeOf n), hdoy⟩
+  simp only at t3'
+  obtain ⟨m1, m2, m3, m4⟩ := t3'
+  have hleap := leapEra_iff (yoeOf n)
+  simp only [Civil.valid, civilOfDays, hn, yoe_bridge, yearStart_bridge, Bool.and_eq_true, decide_eq_true_eq]
+  have hys' := yearStart_bridge (yoeOf n)
+  generalize yoeOf n = y at *
+  generalize yearStart y = ys at *
+  have hdoyI : (n : Int) - (ys : Int) = ((n - ys : Nat) : Int) := by omega
+  simp only [hdoyI]
+  generalize n - ys = doy at *
+  have hmpI : (5 * (doy : Int) + 2) / 153 = (((5 * doy + 2) / 153 : Nat) : Int) := by omega
+  simp only [hmpI]
+  generalize (5 * doy + 2) / 153 = mp at *
+  have hdI : (doy : Int) - (153 * (mp : Int) + 2) / 5 + 1 = ((doy - (153 * mp + 2) / 5 + 1 : Nat) : Int) := by omega
+  simp only [hdI, Int.toNat_natCast]
+  generalize doy - (153 * mp + 2) / 5 + 1 = d at *
+  have hm : (if (mp : Int) < 10 then (mp : Int) + 3 else (mp : Int) - 9).toNat = if mp < 10 then mp + 3 else mp - 9 := by
+    split <;> split <;> omega
+  simp only [hm]
+  refine ⟨⟨⟨?_, ?_⟩, ?_⟩, ?_⟩
+  · split <;> omega
+  · split <;> omega
+  · omega
+  · -- the day is within the month
+    unfold daysInMonth
+    unfold dimMarch at m3
+    have hcases : mp = 0 ∨ mp = 1 ∨ mp = 2 ∨ mp = 3 ∨ mp = 4 ∨ mp = 5 ∨ mp = 6 ∨ mp = 7 ∨ mp = 8 ∨ mp = 9 ∨
+        mp = 10 ∨ mp = 11 := by omega
+    rcases hcases with rfl | rfl | rfl | rfl | rfl | rfl | rfl | rfl | rfl | rfl | rfl | rfl
+    all_goals simp at m3 ⊢
+    all_goals try omega
+    -- February
+    split
+    · exact m3
+    · rename_i hnl
+      rw [Bool.not_eq_true, ← Bool.not_eq_true, isLeap_iff] at hnl
+      by_cases hd29 : d = 29
+      · have h365 := m4 rfl hd29
+        have hle : leapEra y = true := by
+          cases hl : leapEra y
+          · simp [hl] at c; omega
+          · rfl
+        have := hleap.mp hle
+        exfalso; apply hnl; omega
+      · omega
+
+/-- civil date → day number → civil date, on real calendar dates -/
+theorem civilOfDays_daysOfCivil (c : Civil) (hv : c.valid = true) : civilOfDays (daysOfCivil c) = c := by
+  obtain ⟨year, month, day⟩ := c
+  simp only [Civil.valid, Bool.and_eq_true, decide_eq_true_eq] at hv
+  obtain ⟨⟨⟨hm1, hm12⟩, hd1⟩, hdim⟩ := hv
+  -- March-based year, era, year of era
+  generalize hy' : (if month ≤ 2 then year - 1 else year) = y' at *
+  have hY0 : 0 ≤ y' % 400 := Int.emod_nonneg _ (by decide)
+  obtain ⟨Y, hY⟩ := Int.eq_ofNat_of_zero_le hY0
+  have hY399 : Y ≤ 399 := by omega
+  -- March-based month
+  generalize hMP : (if month ≤ 2 then month + 9 else month - 3) = MP at *
+  have hMP11 : MP < 12 := by rw [← hMP]; split <;> omega
+  have hday32 : day < 32 := by
+    have : daysInMonth year month ≤ 31 := by
+      unfold daysInMonth
+      repeat' split
+      all_goals omega
+    omega
+  have hdimM : day ≤ dimMarch MP := by
+    unfold daysInMonth at hdim
+    unfold dimMarch
+    have hcases : month = 1 ∨ month = 2 ∨ month = 3 ∨ month = 4 ∨ month = 5 ∨ month = 6 ∨ month = 7 ∨
+        month = 8 ∨ month = 9 ∨ month = 10 ∨ month = 11 ∨ month = 12 := by omega
+    rcases hcases with rfl | rfl | rfl | rfl | rfl | rfl | rfl | rfl | rfl | rfl | rfl | rfl
+    all_goals simp at hMP hdim; subst hMP; simp
+    all_goals first | omega | (split at hdim <;> omega)
+  obtain ⟨q1, q2, q3⟩ := t4 ⟨MP, hMP11⟩ ⟨day, hday32⟩ hd1 hdimM
+  simp only at q1 q2 q3
+  have hleap : (153 * MP + 2) / 5 + day - 1 = 365 → leapEra Y = true := by
+    intro h365
+    obtain ⟨e1, e2⟩ := q3 h365
+    rw [leapEra_iff]
+    have hmonth : month = 2 := by rw [← hMP] at e1; split at e1 <;> omega
+    subst hmonth; subst e2
+    have : isLeap year = true := by
+      unfold daysInMonth at hdim
+      simp only [↓reduceIte] at hdim
+      split at hdim
+      · assumption
+      · omega
+    rw [isLeap_iff] at this
+    simp only [Nat.le_refl, ↓reduceIte] at hy'
+    omega
+  obtain ⟨u1, u2⟩ := t2 Y ((153 * MP + 2) / 5 + day - 1) hY399 q2 hleap
+  -- compute
+  have hmpI : (if month ≤ 2 then (month : Int) + 9 else (month : Int) - 3) = (MP : Int) := by
+    rw [← hMP]; split <;> omega
+  simp only [daysOfCivil, civilOfDays, hy', hmpI, hY]
+  have hdoyI : (153 * (MP : Int) + 2) / 5 + (day : Int) - 1 = (((153 * MP + 2) / 5 + day - 1 : Nat) : Int) := by omega
+  simp only [hdoyI]
+  generalize (153 * MP + 2) / 5 + day - 1 = doy at *
+  have hdoe : (Y : Int) * 365 + (Y : Int) / 4 - (Y : Int) / 100 + (doy : Int) = ((yearStart Y + doy : Nat) : Int) := by
+    have := yearStart_bridge Y; omega
+  simp only [hdoe]
+  have hz1 : y' / 400 * 146097 + ((yearStart Y + doy : Nat) : Int) - 719468 + 719468
+      = y' / 400 * 146097 + ((yearStart Y + doy : Nat) : Int) := by omega
+  have hz2 : (y' / 400 * 146097 + ((yearStart Y + doy : Nat) : Int)) / 146097 = y' / 400 := by omega
+  have hz3 : (y' / 400 * 146097 + ((yearStart Y + doy : Nat) : Int)) % 146097 = ((yearStart Y + doy : Nat) : Int) := by omega
+  simp only [hz1, hz2, hz3, yoe_bridge, u1, yearStart_bridge]
+  have hdoy2 : ((yearStart Y + doy : Nat) : Int) - ((yearStart Y : Nat) : Int) = (doy : Int) := by omega
+  simp only [hdoy2]
+  have hmp2 : (5 * (doy : Int) + 2) / 153 = (MP : Int) := by omega
+  simp only [hmp2]
+  have hyy : (Y : Int) + y' / 400 * 400 = y' := by omega
+  simp only [hyy]
+  have hdd : ((doy : Int) - (153 * (MP : Int) + 2) / 5 + 1).toNat = day := by omega
+  have hmm : (if (MP : Int) < 10 then (MP : Int) + 3 else (MP : Int) - 9).toNat = month := by
+    rw [← hMP]; split <;> split <;> omega
+  have hyr : (if (if (MP : Int) < 10 then (MP : Int) + 3 else (MP : Int) - 9) ≤ 2 then y' + 1 else y') = year := by
+    rw [← hMP, ← hy']; split <;> split <;> split <;> omega
+  simp only [hdd, hmm, hyr]
 end Kskm
